@@ -1,7 +1,8 @@
 """C14 - persisters are a snapshot store keyed by (pid, tag), equivalent to each other (spec/Persister.tla).
 
 (1) TLC explores every history of <=L operations (save/load/list/list-pid/delete/delete-pid/progress of the live process/
-    resume of a recreated process) over 2 processes x tags {None, t1, t2} x id kinds, the abstract store and both
+    resume of a recreated process) over 2 processes x tags {None, t1, t2} x id kinds (ints, strings, UUIDs, and the falsy
+    ids 0 and '' used as pid and as tag next to the absent tag None), the abstract store and both
     implementations in lockstep: refinement invariants, operation contracts, equivalence;
 (2) the state graph is dumped and histories covering EVERY (state, operation) pair of the graph (plus random ones) are
     replayed on both real persisters side by side with real processes (harness/persister_real.py): every result, the loaded
@@ -24,14 +25,19 @@ VERIF = os.path.dirname(os.path.dirname(os.path.dirname(os.path.abspath(__file__
 # FP2 both persisters raise the same exception class when the checkpoint does not exist)
 FIXES = ['FP1', 'FP2']      # repaired in /repo: b77924b (FP1), 64a0aad (FP2)
 DEVIATIONS = ['D14a', 'D14b']
-KINDS = ['int', 'str', 'uuid']
-INVS = ['C14_AbsMem', 'C14_AbsFiles', 'C14_Contract', 'C14_StoreContracts', 'C14_ImplContracts', 'C14_Equivalent', 'C14_FileNames']
+KINDS = ['int', 'str', 'uuid', 'int0', 'str0']      # int0/str0: ids python treats as false (0, '') as pid and as tag
+INVS = ['C14_AbsMem', 'C14_AbsFiles', 'C14_Contract', 'C14_StoreContracts', 'C14_ImplContracts', 'C14_Equivalent', 'C14_FileNames', 'C14_TagPresent']
 WHAT = {
     'D14a': 'InMemoryPersister.load_checkpoint returns the stored bundle object and unbundle() hands its mutable members (context '
             'values, arguments of the next step) to the recreated process: the progress of that process rewrites the checkpoint',
     'D14b': 'loading a checkpoint that does not exist raises KeyError from the in-memory persister and FileNotFoundError from the '
             'pickle persister (neither is the documented PersistenceError): the two are not observationally equivalent',
 }
+
+
+def persister_real_falsy():
+    from .. import persister_real
+    return persister_real.FALSY_KINDS
 
 
 def fixes():
@@ -41,9 +47,11 @@ def fixes():
     return [f for f in re.split(r'[,\s]+', env.strip()) if f]
 
 
-def mc(name, L, kinds, fx, known, invariants=()):
+def mc(name, L, kinds, fx, known, invariants=(), names=False):
     from .. import persister_real
-    tla = '---- MODULE %s ----\nEXTENDS Persister\nMCStr == %s\n====\n' % (name, tlaval.emit(persister_real.str_constant(kinds)))
+    tla = '---- MODULE %s ----\nEXTENDS Persister%s\nMCStr == %s\n%s====\n' % (
+        name, ', Json' if names else '', tlaval.emit(persister_real.str_constant(kinds)),
+        'ASSUME PrintT(ToJson(<<"names", FileNameTable>>))\n' if names else '')
     cfg = ('SPECIFICATION Spec\nCHECK_DEADLOCK FALSE\nCONSTANTS\n Procs = {"p1", "p2"}\n Tags = {"None", "t1", "t2"}\n L = %d\n'
            ' Kinds = %s\n Str <- MCStr\n Fixes = %s\n Known = %s\n' % (L, tlaval.emit(set(kinds)), tlaval.emit(set(fx)), tlaval.emit(set(known))))
     cfg += ''.join('INVARIANT %s\n' % i for i in invariants)
@@ -175,7 +183,7 @@ def _replay_chunk(paths):
         for i in p[1:]:
             devs |= set(nodes[i]['last']['dev'])
         try:
-            d = persister_real.replay(S0['kind'], ops, exp, fin)
+            d = persister_real.replay(S0['kind'], ops, exp, fin, _G['names'])
         except Exception as e:  # noqa
             import traceback
             d = {'at': -1, 'op': 'harness', 'diffs': [['exception', '', traceback.format_exc()[-1500:]]]}
@@ -186,7 +194,7 @@ def _replay_chunk(paths):
 
 
 def graph_replay(name, L, kinds, fx, rng, extra_random, per_kind=True):
-    tla, cfg = mc(name, L, kinds, fx, [], invariants=['C14_Explained', 'C14_FileNames'])
+    tla, cfg = mc(name, L, kinds, fx, [], invariants=['C14_Explained', 'C14_FileNames'], names=True)
     t0 = time.time()
     ctx = multiprocessing.get_context('fork')
     with tlc.Workdir() as wd:
@@ -207,6 +215,10 @@ def graph_replay(name, L, kinds, fx, rng, extra_random, per_kind=True):
     paths, ntargets, ncover = cover_paths(nodes, succ, inits, rng, extra_random, per_kind)
     t3 = time.time()
     _G['nodes'] = nodes
+    tables = [v[1] for v in res.printed_json() if isinstance(v, list) and len(v) == 2 and v[0] == 'names']
+    if not tables or sorted(tables[0]) != sorted(kinds):
+        raise tlc.MachineryError('%s: the FileNameTable was not printed by TLC:\n%s' % (name, res.out[:2000]))
+    _G['names'] = tables[0]
     divergent, devs, nontrivial = [], set(), 0
     chunk = max(1, len(paths) // 256)
     jobs = [paths[i:i + chunk] for i in range(0, len(paths), chunk)]
@@ -280,7 +292,7 @@ def run(tier, seed):
     else:
         verdict = [dict(name='MC_C14_L6', L=6, kinds=['int']), dict(name='MC_C14_L5', L=5, kinds=KINDS)]
         replays = [dict(name='MC_C14_dump_L4', L=4, kinds=KINDS, extra_random=5000),
-                   dict(name='MC_C14_dump_L5', L=5, kinds=['str'], extra_random=20000)]
+                   dict(name='MC_C14_dump_L5', L=5, kinds=['str', 'int0'], extra_random=20000, per_kind=False)]
     violations = 0
     states = transitions = 0
     mc_summ = []
@@ -379,12 +391,16 @@ def run(tier, seed):
                 'save and a later-or-earlier read (load/resume/list); histories are distinct paths',
         'exhaustive': True, 'model_checking': mc_summ, 'replay': rp_summ, 'states_by_deviation_clause': dict(census),
         'deviation_clauses_exercised': sorted(devs_hit), 'fixes_modelled': fx, 'known_deviations': known,
+        'id_kinds_replayed': sorted({k for r in replays for k in r['kinds']}),
+        'id_kinds_with_falsy_ids': sorted({k for r in replays for k in r['kinds']} & set(persister_real_falsy())),
     }
     evidence.write(PID, tier, seed, 'model_checking', cov, time.time() - t0, violations, [
         'a snapshot is observed through one process class (harness/persister_real.StepProc: ContextMixin + Process) whose steps change a '
         'context list and a list passed to the next step (mutable members) and outputs/status (immutable members)',
-        'ids and tags: ints (1, 11), strings (a, ab, b) and UUIDs; no string form contains the separator "."',
-        'conformance covers every (state, operation) pair of the L=4 graph (thorough: also the L=5 graph for one id kind) and random '
+        'ids and tags: ints (1, 11), strings (a, ab, b), UUIDs, and the falsy ids (0 with 10, the empty string with a) as pid and as tag; '
+        'one id kind per history; no string form contains the separator "."',
+        'conformance covers every (state, operation) pair of the L=4 graph (quick: each pair under one id kind; thorough: under every id '
+        'kind, and also the L=5 graph with each pair under one of the kinds str / int0) and random '
         'histories; L=6 (thorough) is model-checked only',
         'the scratch directory of the pickle persister is private to one history and removed afterwards',
     ])
